@@ -216,6 +216,57 @@ def _tie_tiles(ctx, entry, budget, reads, inp):
                      "byte ranges read by read_object differ from the model's tiles")
 
 
+def sharded_cases(ctx: Ctx, n: int, suite: str = "read_object_sharded"):
+    """read_object of sharded entries returns the full dense tensor (any budget, with / without an output tensor)."""
+    import gen
+    import sim
+    import torch
+    from props import c07
+    from torchsnapshot import Snapshot
+    if not c07._ensure_gloo():
+        ctx.notes.append("1-rank gloo group unavailable: sharded read_object suite skipped")
+        return
+    for _ in range(n):
+        if ctx.time_left() < 10:
+            break
+        rows, cols = ctx.rng.randint(2, 8), ctx.rng.randint(1, 3)
+        dt = ctx.rng.choice([torch.float32, torch.int64, torch.bfloat16, torch.uint8])
+        base = (torch.arange(rows * cols) * 3 + 1).reshape(rows, cols)
+        global_t = base.to(dt)
+        cuts = sorted({0, rows} | {ctx.rng.randint(1, rows - 1) for _ in range(ctx.rng.randint(0, 3))})
+        blocks = list(zip(cuts, cuts[1:]))
+        kn = {"shard": ctx.rng.choice([None, 1, 8, 16]), "slab": ctx.rng.choice([None, 1, 16]), "nobatch": ctx.rng.random() < 0.4,
+              "budget": 10 ** 9}
+        world = sim.World(1)
+
+        def take():
+            st = c07._mk_sharded(global_t.clone(), blocks)
+            Snapshot.take(ROOT, {"s": gen.RecStateful({"st": st, "w": torch.ones(3)})})
+        with sim.knobs(**kn):
+            try:
+                world.run1(take)
+            except Exception as e:  # noqa
+                ctx.fail("sharded-take-raised", f"take of a ShardedTensor raised {type(e).__name__}: {str(e)[:200]}",
+                         {"rows": rows, "cols": cols, "blocks": blocks, "knobs": kn}, None, suite=suite)
+                continue
+        size = global_t.numel() * global_t.element_size()
+        for budget in [None, 1, max(size // 3, 1), 10 * size]:
+            for out_kind in ("none", "dense"):
+                obj_out = torch.zeros_like(global_t) if out_kind == "dense" else None
+                inp = {"rows": rows, "cols": cols, "dtype": str(dt), "blocks": blocks, "knobs": kn, "budget": budget, "obj_out": out_kind}
+                try:
+                    with sim.knobs(nobatch=ctx.rng.random() < 0.5):
+                        got = world.run1(lambda: Snapshot(ROOT).read_object("0/s/st", obj_out=obj_out, memory_budget_bytes=budget))
+                except Exception as e:  # noqa
+                    ctx.fail("read-object-raised", f"read_object of a sharded entry raised {type(e).__name__}: {str(e)[:200]}", inp, None, suite=suite)
+                    continue
+                d = gen.deep_eq(global_t, got)
+                if d is not None:
+                    ctx.fail("read-object-value", "read_object of a sharded entry differs from the saved global tensor", inp, d, suite=suite)
+                ctx.count("entry.ShardedTensorEntry")
+                ctx.case(suite, inp, nontrivial=True, key=[inp, list(gen.tensor_bytes(global_t))])
+
+
 def gen_case(rng) -> Dict[str, Any]:
     import gen
     W = rng.choice([1, 1, 1, 2])
